@@ -96,6 +96,51 @@ func c19RunRender(s verifc19.Scn) string {
 			}
 			return "ok " + strings.Join(ps, ";")
 		})
+	case "cel", "celX":
+		// one CEL expression at one of the three places package content can carry one; the render
+		// context (config / images / environment) supplies the run-time values it looks up
+		var expr string
+		if s.Fn == "cel" {
+			expr = s.Expr.Src()
+		} else if s.Blob != nil {
+			expr = *s.Blob
+		}
+		if expr == "" || (s.Place != "ann" && s.Place != "cond" && s.Place != "path") {
+			return "BAD-SCENARIO"
+		}
+		m := c19Manifest([]string{"a"})
+		ann := map[string]any{c19Phase: "a"}
+		switch s.Place {
+		case "ann":
+			ann[c19CEL] = expr
+		case "cond":
+			m.Spec.Filters.Conditions = []manifests.PackageManifestNamedCondition{{Name: "c1", Expression: expr}}
+			ann[c19CEL] = "cond.c1"
+		case "path":
+			m.Spec.Filters.Paths = []manifests.PackageManifestPath{{Glob: "objs.yaml", Expression: expr}}
+		}
+		o1 := map[string]any{"apiVersion": "v1", "kind": "ConfigMap", "metadata": map[string]any{"name": "o1", "annotations": ann}}
+		o2 := map[string]any{"apiVersion": "v1", "kind": "ConfigMap", "metadata": map[string]any{"name": "o2", "annotations": map[string]any{c19Phase: "a"}}}
+		pkg := &packagetypes.Package{
+			Manifest: m,
+			Files:    packagetypes.Files{"objs.yaml": bytes.Join([][]byte{verifc19.Raw(o1), verifc19.Raw(o2)}, []byte("\n---\n"))},
+		}
+		tc := packagetypes.PackageRenderContext{Config: verifc19.DecodeObj(s.Cfg), Images: s.Imgs}
+		tc.Package.Name, tc.Package.Namespace, tc.Package.Image = "p", "ns", "quay.io/x/y:v1"
+		tc.Environment.Kubernetes.Version = "1.25"
+		if s.N != nil && *s.N&1 == 1 {
+			tc.Environment.OpenShift = &manifests.PackageEnvironmentOpenShift{Version: "4.14"}
+		}
+		return verifc19.GuardT(d, func() string {
+			inst, err := RenderPackageInstance(ctx, pkg, tc, nil, nil)
+			if s.Fn == "celX" {
+				return "nopanic"
+			}
+			if err != nil {
+				return "err"
+			}
+			return fmt.Sprintf("ok %d", len(inst.Objects))
+		})
 	case "parseCM":
 		if s.CM == nil {
 			return "BAD-SCENARIO"
@@ -273,6 +318,158 @@ func TestVerifC19Render(t *testing.T) {
 			objs = append(objs, verifc19.Raw(mkObj(mal, j)))
 		}
 		emit(verifc19.Scn{Fn: "render", Phases: phases, Objs: objs}, tag)
+	}
+
+	// ---- cel: CEL expressions at the three places package content can carry one
+	//      (package-operator.run/condition annotation, spec.filters.conditions[].expression,
+	//      spec.filters.paths[].expression), of static type bool AND of static type dyn (bare lookups
+	//      into config / images / environment, conditionals over them), against run-time values of
+	//      every JSON type.
+	places := []string{"ann", "cond", "path"}
+	celVals := []struct {
+		tag string
+		v   any
+		has bool
+	}{
+		{"bool-true", true, true}, {"bool-false", false, true}, {"string", "true", true}, {"empty-string", "", true},
+		{"int", int64(1), true}, {"float", 1.5, true}, {"null", nil, true}, {"object", map[string]any{"k": true}, true},
+		{"empty-object", map[string]any{}, true}, {"list", []any{true}, true}, {"empty-list", []any{}, true}, {"missing", nil, false},
+	}
+	celShapes := []struct {
+		tag string
+		e   *verifc19.CelExpr
+	}{
+		{"lookup", verifc19.Get("config", "k")},
+		{"nested-lookup", verifc19.Get("config", "k", "k")},
+		{"tern-lit-cond", verifc19.Tern(verifc19.Lit(true), verifc19.Get("config", "k"), verifc19.Lit(false))},
+		{"tern-lit-cond-else", verifc19.Tern(verifc19.Lit(false), verifc19.Lit(true), verifc19.Get("config", "k"))},
+		{"tern-dyn-cond", verifc19.Tern(verifc19.Get("config", "k"), verifc19.Lit(true), verifc19.Lit(false))},
+		{"tern-all-dyn", verifc19.Tern(verifc19.Get("config", "flag"), verifc19.Get("config", "k"), verifc19.Get("config", "k"))},
+		{"tern-nested", verifc19.Tern(verifc19.Get("config", "flag"), verifc19.Tern(verifc19.Lit(true), verifc19.Get("config", "k"), verifc19.Lit(true)), verifc19.Lit(false))},
+		{"not-lookup", verifc19.Not(verifc19.Get("config", "k"))},
+		{"lit", verifc19.Lit(true)},
+		{"not-lit", verifc19.Not(verifc19.Lit(true))},
+	}
+	celTags := func(place string, e *verifc19.CelExpr, extra ...string) []string {
+		t := append([]string{"cel-place=" + place}, extra...)
+		if e.Dyn() {
+			return append(t, "cel-static=dyn")
+		}
+		return append(t, "cel-static=bool")
+	}
+	for _, place := range places {
+		for _, sh := range celShapes {
+			for _, cv := range celVals {
+				for _, flag := range []any{true, false} {
+					cfg := map[string]any{"flag": flag}
+					if cv.has {
+						cfg["k"] = cv.v
+					}
+					emit(verifc19.Scn{Fn: "cel", Place: place, Expr: sh.e, Cfg: verifc19.Raw(cfg), N: verifc19.Ptr(int64(0))},
+						celTags(place, sh.e, "table", "cel-value="+cv.tag, "cel-shape="+sh.tag)...)
+				}
+			}
+		}
+		// images (always strings), environment (strings / objects / absent), absent config
+		for _, e := range []*verifc19.CelExpr{
+			verifc19.Get("images", "img"), verifc19.Get("images", "nope"),
+			verifc19.Get("environment", "kubernetes", "version"), verifc19.Get("environment", "kubernetes"),
+			verifc19.Get("environment", "openShift"), verifc19.Get("environment", "openShift", "version"),
+			verifc19.Get("environment", "proxy"), verifc19.Get("package", "image"), verifc19.Get("package", "metadata"),
+			verifc19.Tern(verifc19.Lit(true), verifc19.Get("images", "img"), verifc19.Lit(true)),
+			verifc19.Tern(verifc19.Get("config", "flag"), verifc19.Get("environment", "openShift"), verifc19.Get("images", "img")),
+		} {
+			for _, n := range []int64{0, 1} {
+				for _, imgs := range []map[string]string{nil, {"img": "quay.io/x/img@sha256:00"}} {
+					for _, cfg := range []json.RawMessage{nil, verifc19.Raw(map[string]any{"flag": true}), verifc19.Raw(map[string]any{"flag": false})} {
+						emit(verifc19.Scn{Fn: "cel", Place: place, Expr: e, Cfg: cfg, Imgs: imgs, N: verifc19.Ptr(n)},
+							celTags(place, e, "table")...)
+					}
+				}
+			}
+		}
+	}
+	keys := []string{"k", "flag", "s", "n", "o", "l", "z", "missing"}
+	var mkGet func() *verifc19.CelExpr
+	mkGet = func() *verifc19.CelExpr {
+		switch g.R.Intn(10) {
+		case 0:
+			return verifc19.Get("images", g.Str("img", "nope"))
+		case 1:
+			return verifc19.Get(append([]string{"environment"}, [][]string{{"kubernetes", "version"}, {"openShift"}, {"openShift", "version"}, {"kubernetes"}}[g.R.Intn(4)]...)...)
+		case 2:
+			return verifc19.Get("config", g.Str("o", "k"), g.Str(keys...))
+		}
+		return verifc19.Get("config", g.Str(keys...))
+	}
+	var mkExpr func(depth int) *verifc19.CelExpr
+	mkExpr = func(depth int) *verifc19.CelExpr {
+		switch x := g.R.Intn(10); {
+		case x < 4 || depth <= 0:
+			return mkGet()
+		case x < 5:
+			return verifc19.Lit(g.P(0.5))
+		case x < 6:
+			return verifc19.Not(mkExpr(depth - 1))
+		}
+		return verifc19.Tern(mkExpr(depth-1), mkExpr(depth-1), mkExpr(depth-1))
+	}
+	mkCfg := func() json.RawMessage {
+		if g.P(0.05) {
+			return nil
+		}
+		cfg := map[string]any{}
+		for _, k := range keys[:7] {
+			switch {
+			case g.P(0.15):
+			case k == "o" && g.P(0.6):
+				cfg[k] = map[string]any{"k": g.JSON(1), "flag": g.P(0.5)}
+			case g.P(0.45):
+				cfg[k] = g.P(0.5)
+			default:
+				cfg[k] = g.JSON(2)
+			}
+		}
+		return verifc19.Raw(cfg)
+	}
+	nc := r.Pick(1500, 20000)
+	for i := 0; i < nc; i++ {
+		place := places[g.R.Intn(3)]
+		e := mkExpr(2)
+		var imgs map[string]string
+		if g.P(0.5) {
+			imgs = map[string]string{"img": "quay.io/x/img@sha256:00"}
+		}
+		emit(verifc19.Scn{Fn: "cel", Place: place, Expr: e, Cfg: mkCfg(), Imgs: imgs, N: verifc19.Ptr(int64(g.R.Intn(2)))},
+			celTags(place, e, "random")...)
+	}
+	// exploration: free-form CEL (operators, macros, indexing, conversions ...) over the same contexts; no model prediction
+	celPool := []string{
+		"config.k", "config.k == \"x\"", "config.k != true", "has(config.k)", "has(config.o.k)", "config.l[0]", "config.o.k", "config[\"k\"]",
+		"size(config.l) > 0", "config.k in [1, 2]", "string(config.k)", "bool(config.s)", "int(config.n) > 0", "config.n + 1", "config.n / 0 == 1",
+		"config.s.startsWith(\"a\")", "dyn(config.k)", "type(config.k) == bool", "cond.c1", "cond.nope", "{\"a\": config.k}.a", "[config.k][0]", "[config.k][1]",
+		"config.l.all(x, x)", "config.l.exists(x, x)", "config.l.map(x, x)[0]", "config.o.map(x, x)", "config.k ? config.s : config.n", "config.k && config.flag",
+		"config.k || true", "true || config.k", "false && config.k", "!config.k", "-config.n", "config", "images", "environment", "package.metadata.name",
+		"images.img", "environment.openShift.version", "environment.kubernetes.version >= \"1.20\"", "null", "1", "\"true\"", "b\"x\"", "[true]", "{}", "1.0 == 1",
+		"config.k.k.k", "config.missing", "nope", "optional.of(config.k)", "config.?k", "config.s.matches(\"(\")", "timestamp(config.s)", "duration(config.s)",
+		"config.k == null", "config.o == {}", "config.l == []", "size(config)", "config.n % 0", "uint(config.n)", "double(config.s)", "",
+	}
+	nf := r.Pick(1200, 20000)
+	for i := 0; i < nf; i++ {
+		e := celPool[g.R.Intn(len(celPool))]
+		if e == "" || g.P(0.25) {
+			e = g.Str("!", "-", "", "(", "") + celPool[g.R.Intn(len(celPool))] + g.Str("", " ? true : config.k", " == config.k", " && true", ")", " ? config.k : false", "[0]", ".k")
+		}
+		if e == "" {
+			e = "config.k"
+		}
+		place := places[g.R.Intn(3)]
+		var imgs map[string]string
+		if g.P(0.5) {
+			imgs = map[string]string{"img": "quay.io/x/img@sha256:00"}
+		}
+		emit(verifc19.Scn{Fn: "celX", Place: place, Blob: verifc19.Ptr(e), Cfg: mkCfg(), Imgs: imgs, N: verifc19.Ptr(int64(g.R.Intn(2)))},
+			"cel-place="+place, "cel-free-form")
 	}
 
 	// ---- exploration: byte-level mutations of a YAML file (incl. CEL annotation), no model prediction
